@@ -5,7 +5,7 @@
    convergence / callback decision sequence and every iteration budget. *)
 From Coq Require Import List Arith Bool Ring ZArith.
 From TLV Require Import Base.Shape Base.PyList Base.Tensor Base.BigSum Model.WarmStart Proofs.WarmStartProofs
-  Proofs.WarmStartProofs2 Proofs.WarmStartTucker Proofs.WarmStartP2.
+  Proofs.WarmStartProofs2 Proofs.WarmStartTucker Proofs.WarmStartP2 Proofs.WarmStartEndToEnd.
 Import ListNotations.
 
 (* (i) the tensor represented by the initialisation, weights absorbed into the last factor *)
@@ -118,6 +118,45 @@ Theorem C14_fixed_modes_user : forall (M W : Type) upd stop normf a n fixed budg
   nth m (facs s') d = nth m (facs s) d.
 Proof. exact @run_fixed_user. Qed.
 Print Assumptions C14_fixed_modes_user.
+
+(* end to end (initialiser + skeleton): a fixed mode other than the last is returned as the SUPPLIED array, whatever the
+   weights of the initialisation, the algorithm, the update rule, the decisions and the budget *)
+Theorem C14_fixed_end_to_end : forall (F : Type) (rI : F) (rmul : F -> F -> F) (eqb : F -> F -> bool) upd stop normf
+  a n fixed budget tol R (w : option (list F)) (fs : list (matrix (F := F))) s' m d,
+  run upd stop normf false a n fixed budget tol (start (init_cp rI rmul eqb R w fs)) = Ok s' ->
+  In m fixed -> (drops_last a = true -> m <> n - 1) -> m < length fs - 1 -> nth m (facs s') d = nth m fs d.
+Proof. exact @fixed_end_to_end. Qed.
+Print Assumptions C14_fixed_end_to_end.
+
+(* the last mode, which only non_negative_parafac_hals lets the caller fix, comes back with the weights absorbed:
+   the supplied array for unit weights, supplied * diag(w) otherwise ... *)
+Theorem C14_hals_fixed_last_mode : forall (F : Type) (rI : F) (rmul : F -> F -> F) (eqb : F -> F -> bool) upd stop normf
+  n fixed budget tol R (w : list F) (fs : list (matrix (F := F))) s',
+  run upd stop normf false NNHals n fixed budget tol (start (init_cp rI rmul eqb R (Some w) fs)) = Ok s' ->
+  In (length fs - 1) fixed -> fs <> [] ->
+  nth (length fs - 1) (facs s') [] =
+  if all_ones rI eqb w then nth (length fs - 1) fs [] else scale_cols rmul (nth (length fs - 1) fs []) w.
+Proof. exact @fixed_last_mode_hals. Qed.
+Print Assumptions C14_hals_fixed_last_mode.
+
+(* ... so with non-unit weights it is NOT the supplied array (known finding; same tensor) *)
+Theorem C14_hals_fixed_last_refuted : exists (w : list Z) (fs : list (list (list Z))) s',
+  run (fun _ m s => nth m (facs s) []) (fun _ _ => false) (fun s => s) false NNHals 2 [1] 1 true
+      (start (init_cp 1%Z Z.mul Z.eqb 1 (Some w) fs)) = Ok s' /\ In 1 [1] /\
+  nth 1 (facs s') [] <> nth 1 fs [].
+Proof. exact hals_fixed_last_counterexample. Qed.
+Print Assumptions C14_hals_fixed_last_refuted.
+
+(* end to end, zero budget: every algorithm, option and fixed list returns a CP tensor representing the supplied one *)
+Theorem C14_zero_budget_end_to_end : forall (F : Type) (rO rI : F) (radd rmul rsub : F -> F -> F) (ropp : F -> F),
+  ring_theory rO rI radd rmul rsub ropp (@eq F) ->
+  forall (eqb : F -> F -> bool), (forall x y, eqb x y = true <-> x = y) ->
+  forall upd stop normf normalize a n fixed tol R (w : list F) (fs : list (matrix (F := F))) idx,
+  fs <> [] -> length w = R ->
+  exists s', run upd stop normf normalize a n fixed 0 tol (start (init_cp rI rmul eqb R (Some w) fs)) = Ok s' /\
+    cp_entry rO rI radd rmul R (wts s') (facs s') idx = cp_entry rO rI radd rmul R w fs idx.
+Proof. exact zero_budget_end_to_end. Qed.
+Print Assumptions C14_zero_budget_end_to_end.
 
 Theorem C14_run_shape : forall (M W : Type) upd stop normf a n fixed budget tol (s s' : st M W),
   run upd stop normf false a n fixed budget tol s = Ok s' -> length (facs s') = length (facs s) /\ wts s' = wts s.
